@@ -293,7 +293,14 @@ def serial_writers(P, R):
                 rhs = s.ev.get('rhs')
                 ok = f in announce and rhs is not None and rhs.get('k') == 'un' and rhs['op'] == '++' and not rhs.get('postfix') and is_var(rhs['e'], 'iauth_serial')
                 R.ob('C04.WMC.2', ok, s, 'a request\'s serial is assigned once, from the pre-incremented counter', key='request-serial')
-    R.floor('C04.WMC.2', 2)
+    # the serial only tells instances apart while it does not repeat: the request's field is as wide as the counter
+    from ..numeric import type_range
+    fld = P.record_field(core.REQ_REC, 'serial') or {}
+    g = P.global_def('iauth_serial')
+    ft, gt = type_range(fld.get('t')), type_range(g[1].get('t')) if g else None
+    R.ob('C04.WMC.2', bool(ft) and bool(gt) and ft[0] <= gt[0] and ft[1] >= gt[1], P.need_fn('iauth_validate_request'),
+         'the serial stored in a request (%s) holds every value of the serial counter (%s)' % (fld.get('t'), g[1].get('t') if g else None), key='serial-width')
+    R.floor('C04.WMC.2', 3)
 
 
 def run(P, R, tier):
